@@ -169,7 +169,10 @@ def _run_path(unit, decisions, contracts, ctx):
     post_env['effects'] = ctx.effects
     post_env['locals_'] = frame.locals
     post_env['hooks_'] = ip.hooks
-    if outcome == 'return':
+    if outcome == 'return' and isinstance(result, api.Lemmas):
+        for label, formula in result.items:
+            ctx.oblige(f"{unit.name}/lemma.{label}", formula, kind='lemma', assume_after=False)
+    elif outcome == 'return':
         for label, fn in unit.ensures:
             clo_s = ip.to_closure(fn)
             names = [p.arg for p in clo_s.node.args.args]
